@@ -270,24 +270,24 @@ Record jcase := mkJC {
   jc_imp_value : Q; jc_imp_mean : Q; jc_imp_deltas : list Q;   (* import_jackknife(jacks) *)
   jc_naive_sq : Q;                                     (* dvalue^2 after gamma_method(S=0) *)
   jc_idl : idl; jc_imp_idl : idl;                      (* configuration list before / after the round trip *)
-  jc_tol : Q }.
+  jc_tol : Q; jc_atol : Q }.                           (* relative tolerance; absolute tolerance (scaled with the data by the harness) *)
 
 Definition jc_full (c : jcase) : list Q := map (fun d => d + jc_rmean c) (jc_deltas c).
 Definition jcase_model_ok (c : jcase) : bool :=
-  close_list (jc_tol c) (jc_tol c) (jc_jacks c) (export_jack (jc_value c) (jc_full c))
+  close_list (jc_tol c) (jc_atol c) (jc_jacks c) (export_jack (jc_value c) (jc_full c))
   && (let r := import_jack (jc_jacks c) in
-      closeb (jc_tol c) (jc_tol c) (jc_imp_value c) (j_value r)
-      && closeb (jc_tol c) (jc_tol c) (jc_imp_mean c) (j_mean r)
-      && close_list (jc_tol c) (jc_tol c) (jc_imp_deltas c) (j_deltas r))
-  && close_list (jc_tol c) (jc_tol c) (import_samples_mat (jc_jacks c)) (import_samples (jc_jacks c)).
+      closeb (jc_tol c) (jc_atol c) (jc_imp_value c) (j_value r)
+      && closeb (jc_tol c) (jc_atol c) (jc_imp_mean c) (j_mean r)
+      && close_list (jc_tol c) (jc_atol c) (jc_imp_deltas c) (j_deltas r))
+  && close_list (jc_tol c) (jc_atol c) (import_samples_mat (jc_jacks c)) (import_samples (jc_jacks c)).
 (* spec verdict: leave-one-out means; round trip restores samples; jackknife variance = naive^2 *)
 Definition jcase_spec_ok (c : jcase) : bool :=
   let full := jc_full c in
-  closeb (jc_tol c) (jc_tol c) (hd 0 (jc_jacks c)) (jc_value c)
-  && all2 (fun i j => closeb (jc_tol c) (jc_tol c) j (loo_mean full i)) (seq 0 (List.length full)) (tl (jc_jacks c))
-  && closeb (jc_tol c) (jc_tol c) (jc_imp_value c) (jc_value c)
+  closeb (jc_tol c) (jc_atol c) (hd 0 (jc_jacks c)) (jc_value c)
+  && all2 (fun i j => closeb (jc_tol c) (jc_atol c) j (loo_mean full i)) (seq 0 (List.length full)) (tl (jc_jacks c))
+  && closeb (jc_tol c) (jc_atol c) (jc_imp_value c) (jc_value c)
   && idl_eqb (jc_idl c) (jc_imp_idl c)
-  && close_list (jc_tol c) (jc_tol c) (map (fun d => d + jc_imp_mean c) (jc_imp_deltas c)) full
+  && close_list (jc_tol c) (jc_atol c) (map (fun d => d + jc_imp_mean c) (jc_imp_deltas c)) full
   && closeb (jc_tol c) (jc_tol c * jc_naive_sq c) (jack_var (tl (jc_jacks c))) (jc_naive_sq c)
   && closeb (jc_tol c) (jc_tol c * jc_naive_sq c) (naive_err_sq full) (jc_naive_sq c).
 
